@@ -10,6 +10,7 @@ Run as a subprocess worker: `python -m harness.props.sim_c03 <wall>` (one JSON s
 """
 from __future__ import annotations
 
+import asyncio
 import copy
 import json
 import os
@@ -73,7 +74,36 @@ class Sim03(scenario.Sim):
             req["killed"] = "after"
             self._do_kill("after-write")
 
+    class _Aborted(Exception):
+        pass
+
+    async def sleep_until(self, t: float) -> None:
+        """Sleep in slices of at most 8 virtual seconds; a framework that PATCHes the object at a sustained
+        high rate (more than `max_rate` PATCHes in one slice: every legitimate history stays far below) is cut
+        short instead of simulating hundreds of thousands of cycles; the oracle reports it as never settling."""
+        limit = int(self.sc.get("max_rate", 300))
+        while self.now() < t:
+            t0 = self.now()
+            await asyncio.sleep(min(t, t0 + 8.0) - t0)
+            n = sum(1 for r in reversed(self.cluster.requests[-4 * limit:])
+                    if r["method"] == "PATCH" and OBJ_PATH in r["path"] and r["wall"] > t0)
+            if n > limit:
+                self.mark("aborted", tail_writes=n, window=self.now() - t0)
+                raise Sim03._Aborted()
+
     async def run(self) -> dict:
+        try:
+            await self._run()
+        except Sim03._Aborted:
+            pass
+        self.mark("end")
+        for name, op in self.ops.items():
+            if op.alive and not op.killed:
+                r = await op.stop()
+                self.mark("stopped", op=name, inc=op.n, result=repr(r), final=True)
+        return self.obs.trace()
+
+    async def _run(self) -> None:
         sc = self.sc
         for o in sc.get("objects", []):
             self.cluster.create_raw(self.kex, "ns", o["name"], o.get("body", {"spec": {"x": 0}}))
@@ -103,12 +133,6 @@ class Sim03(scenario.Sim):
             else:
                 self.apply_op([kind, *args])
         await self.sleep_until(float(sc.get("end", 60.0)))
-        self.mark("end")
-        for name, op in self.ops.items():
-            if op.alive and not op.killed:
-                r = await op.stop()
-                self.mark("stopped", op=name, inc=op.n, result=repr(r), final=True)
-        return self.obs.trace()
 
 
 def run_scenario(sc: dict, wall_limit: float = 60.0) -> dict:
